@@ -12,6 +12,8 @@ import "github.com/weedbox/pokerface/pot"
 
 var c15Events = []string{"GameClosed", "RoundStarted", "ReadyRequested", "RoundClosed", "SettlementCompleted", ""}
 
+var c15Rounds = []string{"", "preflop", "flop", "turn", "river"}
+
 func c15card(name string) string { return vSymString(name, 2) }
 
 func c15State(n int, ev int) *GameState {
@@ -23,7 +25,7 @@ func c15State(n int, ev int) *GameState {
 	gs.Status.Burned = []string{c15card("burn0"), c15card("burn1")}
 	gs.Status.Board = []string{c15card("board0"), c15card("board1"), c15card("board2")}
 	gs.Status.CurrentEvent = c15Events[ev]
-	gs.Status.Round = "flop"
+	gs.Status.Round = c15Rounds[vChoice("round", len(c15Rounds))] // hiding must not depend on the street
 	gs.Status.CurrentWager = vInt64("cw")
 	gs.Status.CurrentPlayer = 0
 	gs.Status.CurrentDeckPosition = vInt("deckpos") // any, also 0 (nothing dealt yet) and out of range
